@@ -24,7 +24,7 @@ RULE = ("A case is an object graph given as a node table: each node is a scalar,
         "{check_for_cycles, ignore_cycles}. Oracle, acyclic graphs, for every entry point that supports the types "
         "(json.build_tree, BasicBuilder().build_tree, pydiff.build_tree): t.to_obj() equals the reference conversion "
         "(tuples -> lists, sets -> multisets) with strict type comparison; the entry points give == trees with equal "
-        "canonical values; t.copy() is == to t, has an equal to_obj() and shares no node object with t; shared "
+        "canonical values; every mapping and list node carries the flags the build options ask for, at every depth; a BasicBuilder subclass with its own tuple handler is honoured after the base class was used; t.copy() is == to t, has an equal to_obj() and shares no node object with t; shared "
         "sub-objects must not raise a cycle error. Cyclic graphs with cycle checking on: the Builder entry points "
         "raise ValueError, or with ignore_cycles produce a tree containing a CyclicReference placeholder, within the "
         "loop budget; json.build_tree must terminate with an exception. Non-trivial: a graph with sharing or a cycle, "
@@ -64,7 +64,7 @@ def graphs(draw, max_nodes=8, allow_cycles=True, allow_obj=True):
     nodes = []
     cyc = allow_cycles and draw(st.integers(0, 3)) == 0
     for i in range(n):
-        kinds = ['scalar', 'scalar', 'list', 'list', 'dict', 'tuple', 'set']
+        kinds = ['scalar', 'scalar', 'list', 'list', 'dict', 'dict', 'tuple', 'tuple', 'set']
         if allow_obj:
             kinds.append('obj')
         k = draw(st.sampled_from(kinds))
@@ -274,6 +274,62 @@ def contains_placeholder(t):
     return any(isinstance(n, builder.CyclicReference) for n in own_nodes(t))
 
 
+class Pair(tuple):
+    pass
+
+
+class TaggingBuilder(builder.BasicBuilder):
+    """A user-style subclass that registers its own, more specific handler for a type the base class also handles: the
+    most specialised registration must win (type dispatch by MRO), whatever was built before in the process."""
+
+    @builder.Builder.expander(Pair)
+    def expand_pair(self, obj):
+        yield from obj
+
+    @builder.Builder.builder(Pair)
+    def build_tagged_tuple(self, obj, children):
+        return graphtage.ListNode([graphtage.StringNode('#tuple')] + list(children))
+
+
+def pairify(o):
+    """the same acyclic object with every tuple replaced by an instance of the tuple subclass Pair"""
+    if isinstance(o, tuple):
+        return Pair(pairify(x) for x in o)
+    if isinstance(o, list):
+        return [pairify(x) for x in o]
+    if isinstance(o, dict):
+        return {k: pairify(v) for k, v in o.items()}
+    return o
+
+
+def expected_tagged(o):
+    if isinstance(o, tuple):
+        return ['#tuple'] + [expected_tagged(x) for x in o]
+    if isinstance(o, list):
+        return [expected_tagged(x) for x in o]
+    if isinstance(o, dict):
+        return {k: expected_tagged(v) for k, v in o.items()}
+    if isinstance(o, (set, frozenset)):
+        return ('multiset', sorted(repr(expected_tagged(x)) for x in o))
+    return o
+
+
+def option_flags_ok(t, ds, le):
+    """Every mapping / list node of the tree must carry the flags the build options ask for, at every depth."""
+    from graphtage import DictNode, FixedKeyDictNode, ListNode, MappingNode
+    for n in own_nodes(t):
+        if isinstance(n, MappingNode):
+            if isinstance(n, FixedKeyDictNode) != (ds == 'none'):
+                return f"{type(n).__name__} under dictionary strategy {ds}"
+            if isinstance(n, DictNode) and bool(n.auto_match_keys) != (ds == 'auto'):
+                return f"DictNode.auto_match_keys={n.auto_match_keys} under dictionary strategy {ds}"
+        elif type(n) is ListNode:
+            if bool(n.allow_list_edits) != (le != 'off') or bool(n.allow_list_edits_when_same_length) != (le != 'same'):
+                return (f"ListNode(allow_list_edits={n.allow_list_edits}, allow_list_edits_when_same_length="
+                        f"{n.allow_list_edits_when_same_length}) under list-edit mode {le}")
+    return None
+
+
 def check(case):
     out = Outcome()
     nodes, root = case['nodes'], case.get('root', len(case['nodes']) - 1)
@@ -348,12 +404,24 @@ def check(case):
                     continue
                 raise
         trees[name] = t
+        bad = option_flags_ok(t, ds, le)
+        if bad:
+            out.fail(f'options-not-applied:{name}', f"{name}: tree for {exp!r} contains {bad}")
         if has_obj:
             continue            # PyObj.to_obj() has its own shape; only equality/copy are checked for custom objects
         with guard(f'{name}.to_obj'):
             got = norm(t.to_obj())
         if not strict_eq(got, exp):
             out.fail(f'to_obj-differs:{name}', f"{name}: to_obj() = {got!r}, original converts to {exp!r}")
+    if not has_obj and not has_set and 'tuple' in kinds:
+        # a subclass handler for tuples, used *after* the base class has already converted this object
+        with guard('TaggingBuilder.build_tree'):
+            o2 = pairify(o)
+            builder.BasicBuilder(opts).build_tree(o2)          # the base class meets the subtype first (handled as a tuple)
+            tt = TaggingBuilder(opts).build_tree(o2)
+            got = norm(tt.to_obj())
+        if not strict_eq(got, expected_tagged(o)):
+            out.fail('subclass-handler-ignored', f"a BasicBuilder subclass with its own tuple builder produced {got!r}, expected {expected_tagged(o)!r}")
     names = list(trees)
     for x, y in zip(names, names[1:]):
         with guard('compare entry points'):
